@@ -10,6 +10,10 @@ wrong designs.  Behaviours exported by TLC (all of length 2 / a sample of length
 walks of length 12-14) are executed on real states, real dicts and real files and the projection is
 compared with the specification's state after every call (harness/persist_replay.py).  The
 ModelSaver callback is additionally driven through real multi-epoch fits (harness/persist_saver.py).
+In the other direction (harness/persist_trace.py) seeded random histories of 15-40 legal public calls
+are made on real worlds of up to 4 models and 3 files, the full projection is recorded after every
+call and TLC decides with spec/TracePersist.tla whether each recorded history is a behaviour of
+Persist.tla (every call a Step with the recorded outcome and the recorded successor state).
 """
 import concurrent.futures as cf
 import copy
@@ -22,6 +26,7 @@ import common
 import persist_model as pm
 import persist_replay as pr
 import persist_saver as ps
+import persist_trace as pt
 import tlc
 
 PID = "C11"
@@ -210,7 +215,14 @@ def run(tier, seed):
                 "na != nv, which reserved key the third dict holds, what the saver is given), six action properties on every "
                 "transition.  Replays: non-trivial = behaviour in which a load/autoload really changes parameters, architecture or "
                 "unitary dictionary, or a model is saved again with the same metadata object, or a model trains away from a "
-                "file holding its earlier parameters, or a save is refused; counted by distinct (setup, call sequence)")
+                "file holding its earlier parameters, or a save is refused; counted by distinct (setup, call sequence).  "
+                "Traces (code -> spec): one scripted history plus %d seeded random histories of 15..40 calls, each call drawn "
+                "from the labels whose enabling condition in Persist.tla holds in the observed projection, on random setups "
+                "with 2-4 model slots (slots of equal type and architecture included) and 2-3 files; TracePersist.tla accepts "
+                "a history iff the initial projection is Persist's Init and every call is Step(label) with the recorded "
+                "outcome and the recorded projection in every field (tokens canonicalised by the rule of Persist!Fresh); "
+                "non-trivial = an accepted history with an effective load, a refused save or a model moving away from a file "
+                "that holds its parameters" % pt.SIZES[tier])
     pool = cf.ThreadPoolExecutor(max_workers=14)
     ex_futs = [(n, lv, pool.submit(pm.exhaustive, n, lv, timeout=1700)) for n, lv in cfg["exhaustive"]]
     var_futs = []
@@ -278,6 +290,9 @@ def run(tier, seed):
         # -- negative controls on the comparator / injected faults
         comparator_controls(chk, [b for _, b in behs], tmpdir, seed)
         ps.controls(chk, tmpdir, seed, soft_control(chk))
+        # -- code -> spec: recorded histories of real calls validated by TLC against Persist.tla (TracePersist.tla);
+        #    counts into chk.traces
+        pt.phase(chk, tier, seed, tmpdir)
     finally:
         shutil.rmtree(tmpdir, ignore_errors=True)
 
@@ -304,6 +319,9 @@ def run(tier, seed):
         "torch.equal against clones taken by the harness",
         "TrainStep / SaverTick are real one-epoch fit() calls (SGD, weight decay so that every parameter moves); in one third "
         "of the behaviours TrainStep is a direct in-place perturbation instead",
+        "trace validation trusts the recorder's projection (persist_replay.World.observe: SHA-1 of names+dtype+shape+bytes, "
+        "files read back with torch.load) and its token naming (persist_trace.Canon); new content that equals content no "
+        "longer referenced is flagged (`notfresh`) and rejected",
     ]
     return chk.finish(exhaustive=False)
 
@@ -321,6 +339,8 @@ def replay(path):
             pr.run_behaviour(chk, det["behaviour"], tmpdir, det["seed"], fit_train=det.get("fit_train", True), key="replay")
         elif "scenario" in det:
             ps.scenario(chk, tmpdir, **det["scenario"])
+        elif "trace" in det:
+            pt.replay(chk, det, tmpdir)
         else:
             print("nothing replayable in", path)
             return 2
